@@ -52,8 +52,10 @@ Faults == {"none",
 (* faults after which the documented format no longer admits the message *)
 Rejecting == Faults \ {"none", "val_dashline_in_narrative", "mur_with_colon_digit", "val_dash_brace_midline"}
 
-VARIABLES b2, b3, b5, fault
-vars == <<b2, b3, b5, fault>>
+\* addr: the addresses in blocks 1 and 2 carry the default branch XXX, or a real branch code
+Addrs == {"xxx", "branch"}
+VARIABLES b2, b3, b5, fault, addr
+vars == <<b2, b3, b5, fault, addr>>
 
 \* a block is absent (empty tag set) or present with 1..MaxTags tags or with all tags
 Small(S) == {x \in SUBSET S : Cardinality(x) <= MaxTags} \cup {S}
@@ -63,6 +65,8 @@ Init ==
   /\ b3 \in Small(B3Tags)
   /\ b5 \in Small(B5Tags)
   /\ fault \in Faults
+  /\ addr \in Addrs
+  /\ (addr = "branch") => (fault = "none" /\ Cardinality(b3) <= 1 /\ Cardinality(b5) <= 1)
   /\ fault # "none" => (b3 \in {{}, {"108"}} /\ b5 \in {{}, {"CHK"}})
   /\ (fault \in {"b2_I_short", "b2_I_partial_obsolescence", "b2_I_trailing"}) => b2 \in {"I_P", "I_PM", "I_PMOOO"}
   /\ (fault \in {"b2_O_short", "b2_O_trailing"}) => b2 \in {"O_P", "O"}
@@ -80,6 +84,6 @@ ValuesDoNotMoveBoundaries ==
      LET m2 == [i \in 1..Len(m) |-> IF m[i] = "c" THEN "x" ELSE m[i]] IN
        Len(Scan(m).blocks) = Len(Scan(m2).blocks)
 
-Case == [b2 |-> b2, b3 |-> b3, b5 |-> b5, fault |-> fault, expect |-> Expect]
+Case == [b2 |-> b2, b3 |-> b3, b5 |-> b5, fault |-> fault, addr |-> addr, expect |-> Expect]
 Emit == EmitCases => PrintT(ToJson(Case))
 =============================================================================
